@@ -79,6 +79,7 @@ pub fn compare_state(g: &G, m: &Model, ctx: &str, out: &mut Outcome) {
 
 /// Runs the constructor form; returns (model, graph) to continue with.
 pub fn run_ctor(case: &HistCase, out: &mut Outcome) -> Option<(Model, G)> {
+    set_universe(case.universe);
     let spec = SpecBits::from_index(case.spec);
     let mut m = Model::new(spec);
     match &case.ctor {
@@ -147,6 +148,13 @@ pub fn classify(case: &HistCase, m: &Model, out: &mut Outcome) {
     if case.ctor.is_some() {
         out.class("ctor_form");
     }
+    if case.universe > 6 {
+        out.class("big_history");
+        let maxdeg = m.nodes.iter().map(|(x, _)| m.edges.iter().filter(|e| e.u == *x || e.v == *x).count()).max().unwrap_or(0);
+        if maxdeg > 32 {
+            out.class("node_with_more_than_32_incident_edges");
+        }
+    }
 }
 
 impl Prop for C01 {
@@ -166,7 +174,8 @@ impl Prop for C01 {
         v
     }
     fn strategy(&self, tier: Tier) -> BoxedStrategy<HistCase> {
-        gen::hist(tier.pick(24, 60), &[0, 0, 1, 2])
+        use proptest::prelude::*;
+        prop_oneof![60 => gen::hist(tier.pick(24, 60), &[0, 0, 1, 2]), 1 => gen::hist_big(&[0, 1, 2])].boxed()
     }
     fn extra_evidence(&self, root: &std::path::Path) -> serde_json::Value {
         crate::engine::fuzz_stats(root, "graph_history")
